@@ -29,8 +29,9 @@ Thetas == {"1/2", "3"}
 Comps1(xs)   == {<<"pl", v>> : v \in [1..Len(xs) -> Vals]} \cup {<<"invsq", <<a>>>> : a \in {"1", "1/3"}}
 CompsFew(xs) == {<<"pl", [i \in 1..Len(xs) |-> IF i = 1 THEN "1/2" ELSE "2"]>>, <<"invsq", <<"1/3">>>>}
 Props  == {"0", "1/4", "1/2", "1"}
-Roots  == {"0", "1/3", "1/2", "1"}          \* p1 = a^2, p2 = b^2 so that sqrt(p1 p2) = a b is rational
-Rhos   == {"-1/2", "0", "1/3", "1"}
+PropsV == IF Level = 1 THEN {"0", "1/4", "1"} ELSE Props
+Roots  == IF Level = 1 THEN {"0", "1/3", "1"} ELSE {"0", "1/3", "1/2", "1"}     \* p1 = a^2, p2 = b^2: sqrt(p1 p2) = a b is rational
+Rhos   == IF Level = 1 THEN {"-1/2", "1/3", "1"} ELSE {"-1/2", "0", "1/3", "1"}
 M      == 2
 C      == <<"3/4", "5/16">>
 
@@ -55,12 +56,12 @@ Init == /\ ph = 0
               x = Base(fam, g, th, sk, cx)
 Refine(y) ==
   CASE y.fam = "1d"   -> {[y EXCEPT !.p = p, !.p2 = q] : <<p, q>> \in {pq \in Props \X Props : RLeq(RAdd(pq[1], pq[2]), "1")}}
-    [] y.fam = "2d"   -> {[y EXCEPT !.cy = cy] : cy \in Comps1(y.g)}
+    [] y.fam = "2d"   -> {[y EXCEPT !.cy = cy] : cy \in (IF Level = 1 THEN CompsFew(y.g) \cup {y.cx} ELSE Comps1(y.g))}
     [] y.fam = "pp2d" -> {[y EXCEPT !.cy = cy, !.rho = r, !.a = a, !.b = b] :
                              cy \in CompsFew(y.g), r \in Rhos, a \in Roots, b \in Roots}
     [] y.fam = "mix"  -> {[y EXCEPT !.cy = cy, !.p2d = q] : cy \in CompsFew(y.g), q \in Props}
     [] y.fam = "vou"  -> {[y EXCEPT !.cy = cy, !.pw = u, !.pc = v, !.pcp = w] :
-                             cy \in CompsFew(y.g), u \in Props, v \in Props, w \in Props}
+                             cy \in CompsFew(y.g), u \in PropsV, v \in PropsV, w \in PropsV}
 Choose == ph = 0 /\ ph' = 1 /\ x' \in Refine(x)
 Next == Choose
 Spec == Init /\ [][Next]_vars
